@@ -53,9 +53,11 @@ RULE = ("(conversion, term) cases and canonicity pairs, all built by constructio
         "must be identical and normalising a right-hand side must return it unchanged. Non-trivial: the conversion "
         "changed the term, or the two renderings differ syntactically; distinct by canonical JSON of the case.")
 ASSUMPTIONS = [
-    "an exception of any type (ConvException, AssertionError, TypeError, RecursionError ...) raised by get_proof_term is "
-    "'fails with its own error' and is only counted; an exception of an overridden eval while get_proof_term succeeds "
-    "is reported (the fast evaluation does not report the same equation)",
+    "ConvException, AssertionError, NotImplementedError, RecursionError and holpy's Theory / Matcher / Tactic / type "
+    "inference exceptions raised by get_proof_term are 'fails with its own error' and only counted; the kernel's "
+    "InvalidDerivationException and Python run-time errors (IndexError, KeyError, TypeError, AttributeError, "
+    "ZeroDivisionError, ValueError, ...) are reported as foreign exceptions; an exception of an overridden eval while "
+    "get_proof_term succeeds is reported (the fast evaluation does not report the same equation)",
     "each conversion is exercised on its documented domain only: nat.norm_full without subtraction, canonicity only for "
     "nat / real polynomials whose atoms are variables or applications f x and for conjunctions / disjunctions given as "
     "sets of members; integer normalisers are checked for soundness, not for canonicity",
@@ -582,6 +584,50 @@ def _canon_set(ts):
 _TIMEOUTS = [0]
 
 
+# Failing "with its own error": ConvException and the project's own failure idioms (AssertionError on a precondition,
+# NotImplementedError, Theory/Matcher/Tactic exceptions). Errors of the kernel about an invalid derivation and Python's
+# run-time errors mean that the conversion broke down half-way rather than declined the term.
+FOREIGN_ERRORS = ('InvalidDerivationException', 'IndexError', 'KeyError', 'TypeError', 'AttributeError', 'ZeroDivisionError',
+                  'ValueError', 'NameError', 'UnboundLocalError', 'OverflowError')
+
+
+def _has_constant_power(t):
+    if t.is_comb():
+        if t.is_comb('power', 2) and not t.arg1.get_vars():
+            return True
+        return any(_has_constant_power(a) for a in t.args)
+    if t.is_abs():
+        return _has_constant_power(t.body)
+    return False
+
+
+def _bound_name_clash(case):
+    """A binder of the input carries the name of a free variable of a supplied equation that has another type
+    (Thm.abstraction cannot abstract over such a name)."""
+    free = {}
+
+    def fv(j):
+        if j[0] == 'v':
+            free.setdefault(j[1], set()).add(json.dumps(j[2]))
+        elif j[0] == 'app':
+            fv(j[1]), fv(j[2])
+        elif j[0] == 'abs':
+            fv(j[3])
+    for c in case.get('conds') or []:
+        if isinstance(c, dict) and 'prop' in c:
+            fv(c['prop'])
+
+    def clash(j):
+        if j[0] == 'app':
+            return clash(j[1]) or clash(j[2])
+        if j[0] == 'abs':
+            if j[1] in free and free[j[1]] != {json.dumps(j[2])}:
+                return True
+            return clash(j[3])
+        return False
+    return clash(case['t'])
+
+
 def apply_conv(cv, t, H, label):
     """get_proof_term under a timer: ('ok', pt) | ('fail', exception name) | ('inconc', reason)."""
     try:
@@ -654,6 +700,14 @@ def check_conv(case, H):
         H.note('fails:%s:%s' % (label, pt))
         if pt not in ('ConvException',):
             H.sample('!fails:%s:%s' % (label, pt), case)
+        if pt in FOREIGN_ERRORS:
+            feat = ''
+            if pt == 'InvalidDerivationException' and _bound_name_clash(case):
+                feat = ':bound-name-is-free-variable-of-supplied-equation-at-another-type'
+            elif str(head).startswith('integer.') and _has_constant_power(t):
+                feat = ':power-of-a-constant'
+            H.violation('conv:foreign-exception:%s:%s%s' % (head, pt, feat), case,
+                        '%s on %s raised %s, which is not an error of the conversion itself' % (label, t, pt))
         # a fast evaluation that answers where the proof fails must at least be true
         if overrides_eval:
             try:
@@ -837,8 +891,7 @@ def check_canon(case, H):
             raise CaseInvalid('polynomial too large')
         if p1 != p2:
             raise CaseInvalid('renderings are different polynomials')
-        if dom == 'nat' and ("'minus'" in repr(r1) or "'minus'" in repr(r2)):
-            raise CaseInvalid('subtraction on naturals is outside the canonicity domain')
+        # subtraction and powers on naturals are opaque atoms of both polynomials (p1 == p2 compares them as such)
         feature = poly_feature(p1)
         extra_class = ['canon-ops:%s:%s' % (dom, poly_ops(case['t'], case['t2']))]
     elif dom in ('conj', 'disj'):
@@ -1186,7 +1239,7 @@ def lambda_cases():
     @st.composite
     def cases(draw):
         T = draw(st.sampled_from([BOOL, BOOL, gen.A, fun(gen.A, BOOL), fun(gen.A, gen.A), fun(BOOL, BOOL), fun(gen.A, gen.A, BOOL)]))
-        shape = draw(st.sampled_from(['plain', 'redex', 'redex', 'redex2', 'eta', 'eta-redex']))
+        shape = draw(st.sampled_from(['plain', 'redex', 'redex', 'redex2', 'eta', 'eta-redex', 'eta-nested']))
         fuel = draw(st.integers(1, 3))
         if shape == 'plain':
             t = draw(gen.terms(opts, T, (), fuel + 1))
@@ -1204,6 +1257,8 @@ def lambda_cases():
             if not codec.jt_is_fun(T):
                 T = fun(gen.A, T)
             f = draw(gen.terms(opts, T, (), fuel))
+            if shape == 'eta-nested':
+                f = ['abs', 'v', T[2], ['app', f, ['b', 0]]]  # the contractum is again an abstraction (and an eta-redex)
             t = ['abs', 'u', T[2], ['app', f, ['b', 0]]]      # eta-redex (f closed)
             if shape == 'eta-redex':
                 t = ['app', t, draw(gen.terms(opts, T[2], (), 1))]
